@@ -547,6 +547,49 @@ def toposort(graph, start=None):
 '''
 
 
+def gen_routes(refs, tasks):
+    """the assignment routes (refs.py: ref[key] = v, ref.attr = v, ref._set_to_expr(e); tasks.py: the DepEnv proxy) and the
+    location read / write of ItemRef / AttrRef must be, statement for statement, the texts below: each route builds the
+    reference of the location and calls Manager.set_value - nothing else"""
+    def meth(cname, name, params, tree=refs):
+        c = find_class(tree, cname)
+        f = next((n for n in c.body if isinstance(n, ast.FunctionDef) and n.name == name), None)
+        if f is None or [a.arg for a in f.args.args] != ["self"] + params or f.decorator_list or f.args.vararg or f.args.kwarg:
+            raise Unsupported(f"{cname}.{name}: not found or signature changed")
+        return f
+
+    def want(cname, name, params, body, tree=refs):
+        f = meth(cname, name, params, tree)
+        if not same_body(f, body):
+            raise Unsupported(f"{cname}.{name} changed:\n" + "\n".join(body_src(f)))
+    guard = ("if attr in dir(self):\n    if not cython.compiled:\n        object.__setattr__(self, attr, value)\n        return\n"
+             "    else:\n        raise AttributeError(f'Attribute {attr} is read-only.')")
+    want("BaseRef", "_set_to_expr", ["expr"], ["self._manager.set_value(self, expr)"])
+    want("MutableRef", "__setitem__", ["key", "value"], ["ref = ItemRef(self, key, self._manager)", "self._manager.set_value(ref, value)"])
+    want("MutableRef", "__setattr__", ["attr", "value"], [guard, "ref = AttrRef(self, attr, self._manager)", "self._manager.set_value(ref, value)"])
+    want("ObjectAttrRef", "__setattr__", ["attr", "value"], [guard, "ref = ItemRef(self, attr, self._manager)", "self._manager.set_value(ref, value)"])
+    want("ItemRef", "_get_value", [], ["owner = BaseRef._mk_value(self._owner)", "item = BaseRef._mk_value(self._key)", "return owner[item]"])
+    want("ItemRef", "_set_value", ["value"], ["owner = BaseRef._mk_value(self._owner)", "item = BaseRef._mk_value(self._key)", "owner[item] = value"])
+    want("AttrRef", "_get_value", [], ["owner = BaseRef._mk_value(self._owner)", "attr = BaseRef._mk_value(self._key)", "return getattr(owner, attr)"])
+    want("AttrRef", "_set_value", ["value"], ["owner = BaseRef._mk_value(self._owner)", "attr = BaseRef._mk_value(self._key)", "setattr(owner, attr, value)"])
+    want("DepEnv", "__setattr__", ["key", "value"], ["self._[key] = value"], tasks)
+    want("DepEnv", "__setitem__", ["key", "value"], ["self._[key] = value"], tasks)
+    return ("\n(* ---- the assignment routes (shape-checked against refs.py / tasks.py on every run): the location of item / attribute\n"
+            "   `key` of the location `owner` is the path owner ++ [key]; the members of the reference object itself (attr in dir(self))\n"
+            "   are the known finding ref-member-attribute and outside the model *)\n"
+            "Section Routes.\nVariable task_run : dtask -> DM unit.\n"
+            "Definition src_set_to_expr (self : path) (expr : vsrc) (sd_order start_order : list path) : DM unit :=\n"
+            "  src_set_value task_run self expr sd_order start_order.\n"
+            "Definition src_setitem (owner : path) (key : N) (value : vsrc) (sd_order start_order : list path) : DM unit :=\n"
+            "  let ref := owner ++ [key] in src_set_value task_run ref value sd_order start_order.\n"
+            "Definition src_setattr (owner : path) (attr : N) (value : vsrc) (sd_order start_order : list path) : DM unit :=\n"
+            "  let ref := owner ++ [attr] in src_set_value task_run ref value sd_order start_order.\n"
+            "(* DepEnv: env.key = value and env[key] = value are self._[key] = value *)\n"
+            "Definition src_env_set (env_ref : path) (key : N) (value : vsrc) (sd_order start_order : list path) : DM unit :=\n"
+            "  src_setitem env_ref key value sd_order start_order.\n"
+            "End Routes.\n")
+
+
 def gen_sorting():
     """sorting._dfs / sorting.toposort must be, statement for statement, the text that lib/ToposortIter.v models (istep is one
     pass of the while loop, itoposort the loop over the start vertices); comments and docstrings aside"""
@@ -601,7 +644,7 @@ def main():
         parts.append(gen_find_tasks(cls))
         parts.append(gen_cleanup_refresh(cls))
         parts.append(gen_clone_verify(cls))
-        data = gen_data(tasks)
+        data = gen_data(tasks) + gen_routes(refs, tasks)
         sorting = gen_sorting()
     except (Unsupported, OSError, SyntaxError) as e:
         print("gen_tasks: cannot translate: " + str(e))
